@@ -7,6 +7,9 @@ set_option linter.unusedVariables false
 namespace TLX.Props.C02Rfc
 open TLX TLX.Spec.RfcSuite TLX.Spec.RfcQuic TLX.Lemmas.C01Rfc TLX.Props.C09Found TLX.Keylog TLX.Spec.KeySchedules
 open TLX.Lemmas.KeySchedule TLX.QuicPipeline TLX.Props.C02Capstone TLX.Spec.NssKeylog
+open TLX.Quic TLX.Cipher TLX.Quic.Session TLX.Lemmas.QuicSession
+open TLX.Props.C02Session TLX.Spec.QuicConnection TLX.Props.C02Pipeline TLX.Quic.CryptoStream TLX.Lemmas.CryptoStream
+open TLX.Spec.TlsHandshakeFraming TLX.Spec.TlsHello TLX.Lemmas.TlsHello
 
 /-! ### the suite: from the IANA denotation to the tool's table -/
 
@@ -242,5 +245,305 @@ theorem keylogHas_text (ls : List (FLine × Bool)) (hwf : ∀ x ∈ ls, x.1.WF) 
   | none =>
     have := lastOf_linesQ_none _ ls _ m5 he
     rw [e5] at this; exact this
+
+/-! ### what the tool's handshake parser reads along a conformant handshake, step by step -/
+section Parser
+
+/-- the parser along the inputs `ins`: it never raises, and the `i`-th input hands exactly the complete messages `news[i]` to
+    `handle_record` -/
+def Steps : Tls → List CryptoIn → List (List Bytes) → Prop
+  | _, [], [] => True
+  | t, c :: cs, n :: ns =>
+    (tlsUpdate t c).2 = none ∧ (tlsUpdate t c).1.msgs = feedRecords t.msgs n ∧ Steps (clearND (tlsUpdate t c).1) cs ns
+  | _, _, _ => False
+
+theorem steps_length (t : Tls) (ins : List CryptoIn) (news : List (List Bytes)) (h : Steps t ins news) :
+    news.length = ins.length := by
+  induction ins generalizing t news with
+  | nil => cases news with
+    | nil => rfl
+    | cons _ _ => cases h
+  | cons c cs ih =>
+    cases news with
+    | nil => cases h
+    | cons n ns => simp only [List.length_cons]; rw [ih _ _ h.2.2]
+
+theorem steps_append (t : Tls) (a b : List CryptoIn) (na nb : List (List Bytes)) (ha : Steps t a na)
+    (hb : Steps (pfold t a) b nb) : Steps t (a ++ b) (na ++ nb) := by
+  induction a generalizing t na with
+  | nil => cases na with
+    | nil => exact hb
+    | cons _ _ => cases ha
+  | cons c cs ih =>
+    cases na with
+    | nil => cases ha
+    | cons n ns =>
+      obtain ⟨h1, h2, h3⟩ := ha
+      exact ⟨h1, h2, ih _ _ h3 (by simpa [pfold] using hb)⟩
+
+/-- one packet-number space of the CRYPTO stream, direct style: everything `ptrace_phase` knows after the inputs `ins` -/
+theorem phase_run (srv : Bool) (ptype : PType) (pt : PT) (hpt : ptOf ptype = some pt)
+    (frs : List Bytes) (hne : ∀ c ∈ frs, c ≠ [])
+    (hnr : ∀ m ∈ implFrame frs.flatten, recordRaises m = false)
+    (ins : List CryptoIn)
+    (hins : ∀ c ∈ ins, c.isServer = srv ∧ c.ptype = ptype ∧
+      ∃ i, frs[i]? = some c.data ∧ c.offset = bnd frs i ∧ c.length = c.data.length)
+    (t : Tls) (D : List CFrame) (cum : List Bytes)
+    (hd : AllDrained t.frames) (hinv : Inv frs D (t.frames.ks (srv, pt)) cum)
+    (hids : ∀ g ∈ D, g.id < t.nextId) (hidsok : IdsOK D) :
+    ∃ (news : List (List Bytes)) (D' : List CFrame) (cum' : List Bytes),
+      Steps t ins news ∧ cum' = cum ++ news.flatten ∧ cum' <+: implFrame frs.flatten ∧
+      AllDrained (pfold t ins).frames ∧ Inv frs D' ((pfold t ins).frames.ks (srv, pt)) cum' ∧
+      (∀ g ∈ D', g.id < (pfold t ins).nextId) ∧ IdsOK D' ∧
+      (∀ k', k' ≠ (srv, pt) → (pfold t ins).frames.ks k' = t.frames.ks k') ∧
+      D'.map C02Crypto.wire = D.map C02Crypto.wire ++ ins.map wireIn := by
+  induction ins generalizing t D cum with
+  | nil =>
+    refine ⟨[], D, cum, trivial, by simp, ?_, hd, hinv, hids, hidsok, fun _ _ => rfl, by simp⟩
+    obtain ⟨⟨j, _, _, hm, _⟩, _⟩ := hinv
+    rw [hm]; exact implFrame_take_prefix frs j
+  | cons c ins ih =>
+    obtain ⟨hsrv, hpty, i, hi1, hi2, hi3⟩ := hins c (List.mem_cons_self ..)
+    have hpt' : ptOf c.ptype = some pt := by rw [hpty]; exact hpt
+    have hfrag : IsFrag frs (frameOfIn t.nextId c) := ⟨i, hi1, hi2, hi3⟩
+    have hidsok' : IdsOK (D ++ [frameOfIn t.nextId c]) := idsOK_snoc D _ hidsok hids
+    have hstep := inv_step frs hne D (t.frames.ks (srv, pt)) cum (frameOfIn t.nextId c) hinv hfrag hidsok'
+    have hpre : cum ++ (kstep never (t.frames.ks (srv, pt)) (frameOfIn t.nextId c)).2.1 <+: implFrame frs.flatten := by
+      obtain ⟨⟨j, _, _, hm, _⟩, _⟩ := hstep
+      rw [hm]; exact implFrame_take_prefix frs j
+    have hnew : ∀ m ∈ (kstep never (t.frames.ks (srv, pt)) (frameOfIn t.nextId c)).2.1, recordRaises m = false :=
+      fun m hm => hnr m (hpre.subset (List.mem_append_right _ hm))
+    have hk : kstep recordRaises (t.frames.ks (srv, pt)) (frameOfIn t.nextId c) =
+        kstep never (t.frames.ks (srv, pt)) (frameOfIn t.nextId c) := by
+      simp only [kstep]
+      rw [msgLoop_noraise recordRaises _ hnew]
+    have hup := tlsUpdate_kstep t c pt hpt' hd
+    rw [hsrv, hk] at hup
+    have hraised : (kstep never (t.frames.ks (srv, pt)) (frameOfIn t.nextId c)).2.2 = false := by
+      simp only [kstep]; exact msgLoop_never_raised _
+    rw [hraised] at hup
+    simp only [Bool.false_eq_true, if_false] at hup
+    have hd' : AllDrained (t.frames.set (srv, pt) (kstep never (t.frames.ks (srv, pt)) (frameOfIn t.nextId c)).1) := by
+      have hown := update_own_space recordRaises t.frames (srv, pt) (frameOfIn t.nextId c) (fun q _ => hd _)
+      have := C02Crypto.update_keeps_drained recordRaises t.frames (srv, pt) (frameOfIn t.nextId c) hd
+        (by rw [hown, hk]; exact hraised)
+      rw [hown, hk] at this
+      exact this
+    obtain ⟨news, D', cum', s1, s2, s3, s4, s5, s6, s7, s8, s9⟩ := ih (fun c' hc' => hins c' (List.mem_cons_of_mem _ hc'))
+      (clearND (tlsUpdate t c).1) (D ++ [frameOfIn t.nextId c])
+      (cum ++ (kstep never (t.frames.ks (srv, pt)) (frameOfIn t.nextId c)).2.1)
+      (by rw [hup]; exact hd')
+      (by rw [hup]; simpa [clearND, State.set] using hstep)
+      (by
+        intro g hg
+        rw [hup]
+        simp only [clearND]
+        rcases List.mem_append.mp hg with hg | hg
+        · have := hids g hg; omega
+        · simp only [List.mem_singleton] at hg; subst hg; simp [frameOfIn])
+      hidsok'
+    refine ⟨(kstep never (t.frames.ks (srv, pt)) (frameOfIn t.nextId c)).2.1 :: news, D', cum', ?_, ?_, s3, ?_, ?_, ?_, s7, ?_, ?_⟩
+    · exact ⟨by rw [hup], by rw [hup], s1⟩
+    · rw [s2]; simp [List.append_assoc]
+    · exact s4
+    · exact s5
+    · exact s6
+    · intro k' hk'
+      have := s8 k' hk'
+      show (pfold (clearND (tlsUpdate t c).1) ins).frames.ks k' = _
+      rw [this, hup]
+      simp [clearND, State.set, hk']
+    · rw [s9]; simp [C02Crypto.wire, frameOfIn, wireIn]
+
+theorem pfold_app (t : Tls) (a b : List CryptoIn) : pfold t (a ++ b) = pfold (pfold t a) b := by
+  simp [pfold, List.foldl_append]
+
+/-- along `Steps`, a property of the parser's message state that every handed-over batch preserves holds after every prefix -/
+theorem steps_keep (G : TlsMsgs.State → Prop) (hclr : ∀ st, G st → G { st with newData := false })
+    (t : Tls) (ins : List CryptoIn) (news : List (List Bytes)) (hs : Steps t ins news)
+    (hn : ∀ n ∈ news, ∀ st, G st → G (feedRecords st n)) (h0 : G t.msgs) :
+    ∀ a, a <+: ins → G (pfold t a).msgs := by
+  induction ins generalizing t news with
+  | nil => intro a ha; rw [List.prefix_nil.mp ha]; exact h0
+  | cons c cs ih =>
+    cases news with
+    | nil => cases hs
+    | cons n ns =>
+      obtain ⟨h1, h2, h3⟩ := hs
+      intro a ha
+      cases a with
+      | nil => exact h0
+      | cons x a' =>
+        obtain ⟨rfl, ha'⟩ := List.cons_prefix_cons.mp ha
+        show G (pfold (clearND (tlsUpdate t x).1) a').msgs
+        refine ih _ ns h3 (fun n' hn' => hn n' (List.mem_cons_of_mem _ hn')) ?_ a' ha'
+        show G { (tlsUpdate t x).1.msgs with newData := false }
+        rw [h2]
+        exact hclr _ (hn n (List.mem_cons_self ..) _ h0)
+
+/-- the flight's messages and the client's Finished leave the selected suite alone -/
+theorem feed_flight_cs (h : ConfHs) (hok : h.Ok) (csel : Bytes) (new : List Bytes)
+    (hnew : ∀ m ∈ new, m = encodeEncryptedExtensions h.ee ∨ ∃ T b, m = handshake T b ∧ T < 256 ∧ T ≠ 1 ∧ T ≠ 2 ∧ T ≠ 8)
+    (st : TlsMsgs.State) (h2 : st.ciphersuite = some csel) :
+    (feedRecords st new).ciphersuite = some csel := by
+  induction new generalizing st with
+  | nil => exact h2
+  | cons m new ih =>
+    have hrest := fun x hx => hnew x (List.mem_cons_of_mem _ hx)
+    have hstep : feedRecords st (m :: new) = feedRecords (feedRecords st [m]) new := by
+      simp [feedRecords]
+    rw [hstep]
+    rcases hnew m (List.mem_cons_self ..) with rfl | ⟨T, b, rfl, hT, n1, n2, n8⟩
+    · obtain ⟨q1, q2, q3, _⟩ := C02Hello.encrypted_extensions_parsed h.ee hok.ee st
+      have : feedRecords st [encodeEncryptedExtensions h.ee] = { extsEffect st h.ee with newData := true } := by
+        unfold encodeEncryptedExtensions at q1 ⊢
+        rw [feed_one 8 (by decide), q1]
+      rw [this]
+      exact ih hrest _ (by simpa using q3.trans h2)
+    · have : feedRecords st [handshake T b] = st := by
+        rw [feed_one T hT]
+        have hh := helloType_other T hT n1 n2 n8 b
+        have hm : handshake T b = UInt8.ofNat T :: (u24 b.length ++ b) := by simp [handshake, u8_eq]
+        have := handleRecord_not_hello st (handshake T b) hh (UInt8.ofNat T) _ hm
+        simp [Nat.mod_eq_of_lt hT] at this
+        rw [this]
+      rw [this]
+      exact ih hrest st h2
+
+/-- the client's Initial CRYPTO inputs, the ServerHello input, and what follows it -/
+def chIns (h : ConfHs) : List CryptoIn := h.chDl.map (inOf false .initial)
+def shIn (h : ConfHs) : CryptoIn := inOf true .initial (0, encodeServerHello h.sh, (encodeServerHello h.sh).length)
+def tailIns (h : ConfHs) : List CryptoIn :=
+  (framesOf 0 h.sFrs).map (inOf true .handshake) ++
+    [inOf false .handshake (0, handshake 20 h.cfin, (handshake 20 h.cfin).length)]
+
+theorem ins_split (h : ConfHs) : h.ins = chIns h ++ shIn h :: tailIns h := rfl
+
+/-- **What the tool's parser reads along a conformant handshake.** The CRYPTO input carrying the ServerHello makes
+    `new_data` fire (the session installs the keys then), and after it and after every later input the parser's
+    `ciphersuite` is the ServerHello's. -/
+theorem parser_facts (h : ConfHs) (hok : h.Ok) :
+    pfired (pfold {} (chIns h)) [shIn h] = true ∧
+    ∀ b, b <+: tailIns h → (pfold {} (chIns h ++ shIn h :: b)).msgs.ciphersuite = some h.sh.cipherSuite := by
+  obtain ⟨cb1, cb2⟩ := ch_body h.ch hok.ch
+  obtain ⟨sb1, sb2⟩ := sh_body h.sh hok.sh
+  have hM1 : implFrame h.chFrs.flatten = [encodeClientHello h.ch] := by
+    rw [hok.chCut.2]
+    have := single_msgs 1 h.ch.body cb1 cb2
+    simp only [List.flatten_cons, List.flatten_nil, List.append_nil] at this
+    exact this
+  have hM2 : implFrame [encodeServerHello h.sh].flatten = [encodeServerHello h.sh] := single_msgs 2 _ sb1 sb2
+  have hM3 : implFrame h.sFrs.flatten =
+      [encodeEncryptedExtensions h.ee, handshake 11 h.cert, handshake 15 h.cv, handshake 20 h.sfin] := by
+    rw [hok.sCut.2]; exact flight_msgs h hok
+  have hM4 : implFrame [handshake 20 h.cfin].flatten = [handshake 20 h.cfin] := single_msgs 20 _ hok.cfin.1 hok.cfin.2
+  have r1 : recordRaises (encodeClientHello h.ch) = false := by
+    unfold encodeClientHello
+    rw [raises_one 1 (by decide)]
+    obtain ⟨s', e, _⟩ := C02Hello.client_hello_parsed h.ch hok.ch {}
+    unfold encodeClientHello at e; rw [e]; rfl
+  have r2 : recordRaises (encodeServerHello h.sh) = false := by
+    unfold encodeServerHello
+    rw [raises_one 2 (by decide)]
+    obtain ⟨s', e, _⟩ := C02Hello.server_hello_parsed h.sh hok.sh h.shExts hok.shE {}
+    unfold encodeServerHello at e; rw [e]; rfl
+  have r8 : recordRaises (encodeEncryptedExtensions h.ee) = false := by
+    unfold encodeEncryptedExtensions
+    rw [raises_one 8 (by decide)]
+    have e := (C02Hello.encrypted_extensions_parsed h.ee hok.ee {}).1
+    unfold encodeEncryptedExtensions at e; rw [e]; rfl
+  have rO : ∀ T b, T < 256 → T ≠ 1 → T ≠ 2 → T ≠ 8 → recordRaises (handshake T b) = false :=
+    fun T b hT n1 n2 n8 => recordRaises_not_hello _ (helloType_other T hT n1 n2 n8 b)
+  have hfl : ∀ m ∈ [encodeEncryptedExtensions h.ee, handshake 11 h.cert, handshake 15 h.cv, handshake 20 h.sfin],
+      m = encodeEncryptedExtensions h.ee ∨ ∃ T b, m = handshake T b ∧ T < 256 ∧ T ≠ 1 ∧ T ≠ 2 ∧ T ≠ 8 := by
+    intro m hm
+    simp only [List.mem_cons, List.not_mem_nil, or_false] at hm
+    rcases hm with rfl | rfl | rfl | rfl
+    · exact Or.inl rfl
+    · exact Or.inr ⟨11, _, rfl, by decide, by decide, by decide, by decide⟩
+    · exact Or.inr ⟨15, _, rfl, by decide, by decide, by decide, by decide⟩
+    · exact Or.inr ⟨20, _, rfl, by decide, by decide, by decide, by decide⟩
+  -- phase 1: the ClientHello, any order
+  obtain ⟨news1, D1, cum1, st1, c1, pre1, d1, i1, ids1, idok1, oth1, w1⟩ :=
+    phase_run false .initial .initial rfl h.chFrs hok.chCut.1
+      (by rw [hM1]; intro m hm; simp only [List.mem_singleton] at hm; subst hm; exact r1)
+      (chIns h) (phase_inputs_ok false .initial h.chFrs h.chDl (by
+        intro w hw
+        rcases List.mem_append.mp (hok.chPerm.mem_iff.mp hw) with hh | hh
+        · exact hh
+        · exact hok.chDupsOk w hh))
+      {} [] [] allDrained_init (inv_init _) (by intro g hg; cases hg) (by intro a ha; cases ha)
+  -- phase 2: the ServerHello
+  obtain ⟨news2, D2, cum2, st2, c2, pre2, d2, i2, ids2, idok2, oth2, w2⟩ :=
+    phase_run true .initial .initial rfl [encodeServerHello h.sh]
+      (by intro c hc; simp only [List.mem_singleton] at hc; subst hc; exact handshake_ne_nil _ _)
+      (by rw [hM2]; intro m hm; simp only [List.mem_singleton] at hm; subst hm; exact r2)
+      [shIn h] (phase_inputs_ok true .initial [encodeServerHello h.sh] [_] (by
+        intro w hw; simp only [List.mem_singleton] at hw; subst hw; simp [framesOf]))
+      (pfold {} (chIns h)) [] [] d1 (by rw [oth1 _ (by decide)]; exact inv_init _) (by intro g hg; cases hg)
+      (by intro a ha; cases ha)
+  have hdel2 : C02Crypto.Delivery [encodeServerHello h.sh] D2 := by
+    refine ⟨⟨[], ?_, by simp⟩, idok2⟩
+    rw [w2]; simp [wireIn, inOf, framesOf, shIn]
+  have hc2 := inv_complete _ _ _ _ i2 hdel2
+  rw [hM2] at hc2
+  -- the one step of phase 2 hands over exactly the ServerHello
+  obtain ⟨n2, rfl⟩ : ∃ n, news2 = [n] := by
+    have := steps_length _ _ _ st2
+    match news2, this with
+    | [n], _ => exact ⟨n, rfl⟩
+  have hn2 : n2 = [encodeServerHello h.sh] := by
+    rw [c2] at hc2; simpa using hc2
+  subst hn2
+  obtain ⟨_, hm2, _⟩ := st2
+  obtain ⟨s', e, q1, q2, _⟩ := C02Hello.server_hello_parsed h.sh hok.sh h.shExts hok.shE (pfold {} (chIns h)).msgs
+  have hf : feedRecords (pfold {} (chIns h)).msgs [encodeServerHello h.sh] = s' := by
+    unfold encodeServerHello at e ⊢; rw [feed_one 2 (by decide), e]
+  rw [hf] at hm2
+  refine ⟨by simp [pfired, hm2, q2], ?_⟩
+  -- phases 3 and 4
+  obtain ⟨news3, D3, cum3, st3, c3, pre3, d3, i3, ids3, idok3, oth3, w3⟩ :=
+    phase_run true .handshake .handshake rfl h.sFrs hok.sCut.1
+      (by
+        rw [hM3]; intro m hm
+        rcases hfl m hm with rfl | ⟨T, b, rfl, hT, n1, n2, n8⟩
+        · exact r8
+        · exact rO T b hT n1 n2 n8)
+      ((framesOf 0 h.sFrs).map (inOf true .handshake)) (phase_inputs_ok true .handshake h.sFrs _ (fun w hw => hw))
+      (pfold (pfold {} (chIns h)) [shIn h]) [] [] d2
+      (by rw [oth2 _ (by decide), oth1 _ (by decide)]; exact inv_init _) (by intro g hg; cases hg)
+      (by intro a ha; cases ha)
+  obtain ⟨news4, D4, cum4, st4, c4, pre4, d4, i4, ids4, idok4, oth4, w4⟩ :=
+    phase_run false .handshake .handshake rfl [handshake 20 h.cfin]
+      (by intro c hc; simp only [List.mem_singleton] at hc; subst hc; exact handshake_ne_nil _ _)
+      (by rw [hM4]; intro m hm; simp only [List.mem_singleton] at hm; subst hm
+          exact rO 20 _ (by decide) (by decide) (by decide) (by decide))
+      [inOf false .handshake (0, handshake 20 h.cfin, (handshake 20 h.cfin).length)]
+      (phase_inputs_ok false .handshake [handshake 20 h.cfin] [_] (by
+        intro w hw; simp only [List.mem_singleton] at hw; subst hw; simp [framesOf]))
+      (pfold (pfold (pfold {} (chIns h)) [shIn h]) ((framesOf 0 h.sFrs).map (inOf true .handshake))) [] [] d3
+      (by rw [oth3 _ (by decide), oth2 _ (by decide), oth1 _ (by decide)]; exact inv_init _)
+      (by intro g hg; cases hg) (by intro a ha; cases ha)
+  have st34 := steps_append _ _ _ _ _ st3 st4
+  intro b hb
+  have hsplit : chIns h ++ shIn h :: b = (chIns h ++ [shIn h]) ++ b := by simp
+  rw [hsplit, pfold_app, pfold_app]
+  refine steps_keep (fun st => st.ciphersuite = some h.sh.cipherSuite) (fun _ hh => hh) _ _ _ st34 ?_ ?_ b hb
+  · intro n hn st hst
+    refine feed_flight_cs h hok _ n ?_ st hst
+    intro m hm
+    rcases List.mem_append.mp hn with hn | hn
+    · have : m ∈ cum3 := by rw [c3]; simp only [List.nil_append, List.mem_flatten]; exact ⟨n, hn, hm⟩
+      exact hfl m (by rw [← hM3]; exact pre3.subset this)
+    · have : m ∈ cum4 := by rw [c4]; simp only [List.nil_append, List.mem_flatten]; exact ⟨n, hn, hm⟩
+      have := pre4.subset this
+      rw [hM4] at this
+      simp only [List.mem_singleton] at this
+      exact Or.inr ⟨20, _, this, by decide, by decide, by decide, by decide⟩
+  · show (clearND (tlsUpdate (pfold {} (chIns h)) (shIn h)).1).msgs.ciphersuite = _
+    simp only [clearND]
+    rw [hm2]; exact q1
+
+end Parser
 
 end TLX.Props.C02Rfc
